@@ -432,17 +432,20 @@ def corner_programs():
     out = []
     # a rejected program whose Report block fails at its first member, then an accepted one with declarations outside the block
     # (whatever the parser remembered of the failed attempt must not leak into the next compilation)
-    good = "(def (Report (x 0)) (cap 10) (volatile vc 3)) (when true (:= Report.x (+ cap vc)) (report))"
-    for bad in ("(def (Report (1bad 0)) (c 1)) (when true (report))", "(def (Report ()) (c 1)) (when true (report))",
-                "(def (Report) (c 1)) (when true (report))", "(def (Report (x)) (c 1)) (when true (report))",
-                "(def (Report (volatile)) (c 1)) (when true (report))", "(def (Report (x 0) (1bad 0)) (c 1)) (when true (report))",
-                "(def (Report (x 0)) (1bad 0)) (when true (report))", "(def (Report (x 99999999999)) (c 1)) (when true (report))"):
-        out.append(bad)
-        out.append(good)
-        out.append(bad)
-        out.append("(def (cap 10) (volatile vc 3) (Report (x 0))) (when true (:= Report.x (+ cap vc)) (report))")   # declarations BEFORE the block
-        out.append(bad)
-        out.append("(def (cap 10) (volatile vc 3)) (when true (:= Cwnd (+ cap vc)))")                              # no Report block at all
+    goods = ["(def (Report (x 0)) (cap 10) (volatile vc 3)) (when true (:= Report.x (+ cap vc)) (report))",
+             "(def (cap 10) (volatile vc 3) (Report (x 0))) (when true (:= Report.x (+ cap vc)) (report))",   # declarations BEFORE the block
+             "(def (cap 10) (volatile vc 3)) (when true (:= Cwnd (+ cap vc)))",                              # no Report block at all
+             "(def (cap 10) (volatile thresh 20) (volatile Report.acked 3)) (when true (:= cap 5) (:= thresh 6) (:= Report.acked 7) (report))"]
+    bads = ("(def (Report (1bad 0)) (c 1)) (when true (report))", "(def (Report ()) (c 1)) (when true (report))",
+            "(def (Report) (c 1)) (when true (report))", "(def (Report (x)) (c 1)) (when true (report))",
+            "(def (Report (acked) (volatile rtt 0)) (cap 10)) (when true (report))",
+            "(def (Report (volatile)) (c 1)) (when true (report))", "(def (Report (x 0) (1bad 0)) (c 1)) (when true (report))",
+            "(def (Report (x 0)) (1bad 0)) (when true (report))", "(def (Report (x 99999999999)) (c 1)) (when true (report))")
+    # (every text is made distinct - trailing blanks - so that the runner's de-duplication keeps every copy, in this order)
+    for i, bad in enumerate(bads):
+        for j, good in enumerate(goods):
+            out.append(bad + " " * (j + 1))
+            out.append(good + " " * (i + 1))
     for outer in OPS16:
         for inn in inner:
             for shape in ("(%s %s 3)" % (outer, inn), "(%s 3 %s)" % (outer, inn), "(%s %s %s)" % (outer, inn, inn)):
